@@ -34,6 +34,20 @@ def havoc_var(it, frame, name, how):
     p = it.p
     if isinstance(how, tuple) and how[0] in ('recompute', 'assign_dict'):
         return (how[0], name, how[1])
+    if isinstance(how, tuple) and how[0] == 'hlist_grow':
+        # the loop only appends elements of family how[1] to this list: at the loop head it is its
+        # value on entry followed by an unknown number of such elements (checked at 'preserve')
+        from .values import HList, Segment
+        cur, ok = frame.lookup(name)
+        if isinstance(cur, ListVal):
+            cur = HList(cur.items)
+        if not isinstance(cur, HList):
+            raise Unsupported('havoc hlist_grow: %s is not a list' % name)
+        seg = Segment(SeqVal(p.fresh(name + '.grown', it.types.sort_of('Seq[%s]' % how[1])), how[1]))
+        new = HList(cur.parts + [seg])
+        _store(frame, name, new)
+        frame.locals['_grow_' + name] = (list(new.parts), how[1])
+        return None
     if how == 'rstream':
         st, ok = frame.lookup(name)
         if not isinstance(st, Stream):
@@ -66,7 +80,27 @@ def _store(frame, name, v):
     frame.locals[name] = v
 
 
+_LOOP_GHOSTS = ('_todo', '_head', '_pos')
+
+
 def run_loop_with_spec(it, node, frame, spec, kind, iterable=None):
+    """nested specified loops of one function share the frame: the engine's ghost names belong to
+    the innermost running loop; on leaving a loop its final values stay available under
+    ordinal-qualified names (`_todo_1`, `_head_1`) and the enclosing loop gets its own back"""
+    saved = {k: frame.locals[k] for k in _LOOP_GHOSTS if k in frame.locals}
+    try:
+        return _run_loop_with_spec(it, node, frame, spec, kind, iterable)
+    finally:
+        for k in _LOOP_GHOSTS:
+            if k in frame.locals:
+                frame.locals['%s_%d' % (k, spec.key[1])] = frame.locals[k]
+            if k in saved:
+                frame.locals[k] = saved[k]
+            else:
+                frame.locals.pop(k, None)
+
+
+def _run_loop_with_spec(it, node, frame, spec, kind, iterable=None):
     p = it.p
     qn = '%s:%d' % spec.key
     # the loop specification as seen by the property being checked (shared part + its own clauses)
@@ -100,7 +134,25 @@ def run_loop_with_spec(it, node, frame, spec, kind, iterable=None):
         elif isinstance(base_iter, IterSource) and base_iter.kind == 'range':
             lo, hi, st = base_iter.data
             if not p.must(int_term(st) > 0):
-                raise Unsupported('spec loop over range needs a provably positive step')
+                if p.branch(int_term(st) > 0):
+                    pass
+                elif p.branch(int_term(st) == 0):
+                    it.raise_exc('ValueError', 'range() arg 3 must not be zero')
+                elif not p.must(int_term(lo) <= int_term(hi)) and p.branch(int_term(lo) > int_term(hi)):
+                    raise Unsupported('descending range loop under a loop specification')
+                else:
+                    # negative step and lo <= hi: the range is empty, the loop is skipped
+                    for (name, expr) in spec_consts:
+                        frame.locals[name] = eval_in(it, frame, expr)
+                    for (name, desc, init, step) in spec_ghost:
+                        frame.locals[name] = eval_in(it, frame, init)
+                    frame.locals['_pos'] = lo
+                    lem_exit = [] if (only_for and pid not in only_for) else list(getattr(spec, 'exit', ()))
+                    lem_exit += spec.by_prop.get(pid, {}).get('exit', [])
+                    for src in lem_exit:
+                        exec_in(it, frame, src)
+                    it.exec_block(node.orelse, frame)
+                    return
             frame.locals['_pos'] = lo
             loop_kind = 'range'
             rng = (lo, hi, st)
@@ -135,6 +187,9 @@ def run_loop_with_spec(it, node, frame, spec, kind, iterable=None):
     if loop_kind == 'seq':
         old = frame.locals['_todo']
         frame.locals['_todo'] = SeqVal(p.fresh('_todo', old.term.sort()), old.elem)
+        # `_head`: the element bound by the current iteration as a one-element sequence (empty
+        # until an iteration starts)
+        frame.locals['_head'] = SeqVal(z3.Empty(old.term.sort()), old.elem)
     elif loop_kind == 'range':
         # the current position: some lo + k*step reached by stepping while the guard held.  Only
         # the linear consequences are stated (a product k*step of two symbols would leave linear
@@ -172,6 +227,12 @@ def run_loop_with_spec(it, node, frame, spec, kind, iterable=None):
     else:
         go = p.branch(int_term(frame.locals['_pos']) < int_term(rng[1]))
     if not go:
+        lem_exit = list(getattr(spec, 'exit', ()))
+        if only_for and pid not in only_for:
+            lem_exit = []
+        lem_exit += spec.by_prop.get(pid, {}).get('exit', [])
+        for src in lem_exit:
+            exec_in(it, frame, src)
         it.exec_block(node.orelse, frame)
         return
     measure0 = None
@@ -182,6 +243,7 @@ def run_loop_with_spec(it, node, frame, spec, kind, iterable=None):
     elif loop_kind == 'range':
         measure0 = int_term(rng[1]) - int_term(frame.locals['_pos'])
     # ---- bind the loop variable
+    skipped = False
     if loop_kind == 'seq':
         todo = frame.locals['_todo']
         from .folds import seq_split, seq_index
@@ -192,8 +254,15 @@ def run_loop_with_spec(it, node, frame, spec, kind, iterable=None):
         if src_elt is not None:
             gnode, sub = src_elt
             it.assign(gnode.generators[0].target, x, sub)
-            x = it.eval(gnode.elt, sub)
-        it.assign(node.target, x, frame)
+            # a filtered generator expression: elements failing the filter are skipped
+            for cond in gnode.generators[0].ifs:
+                if not it.truthy(it.eval(cond, sub)):
+                    skipped = True
+                    break
+            if not skipped:
+                x = it.eval(gnode.elt, sub)
+        if not skipped:
+            it.assign(node.target, x, frame)
     elif loop_kind == 'range':
         x = frame.locals['_pos']
         frame.locals['_pos'] = z3.simplify(int_term(x) + int_term(rng[2]))
@@ -204,17 +273,32 @@ def run_loop_with_spec(it, node, frame, spec, kind, iterable=None):
         it.assign(node.target, x, frame)
     # ---- body
     try:
-        it.exec_block(node.body, frame)
+        if not skipped:
+            it.exec_block(node.body, frame)
     except ContinueSignal:
         pass
     except BreakSignal:
-        return      # leaves the loop with the current state; for/while-else is skipped
+        # leaves the loop with the current state; for/while-else is skipped
+        for src in getattr(spec, 'on_break', ()):
+            exec_in(it, frame, src)
+        return
     for (name, desc, init, step) in spec_ghost:
         if step is not None:
             _store(frame, name, eval_in(it, frame, step))
     for src in lem_tail:
         exec_in(it, frame, src)
     check_invariants('preserve')
+    for name, how in spec.havoc.items():
+        if isinstance(how, tuple) and how[0] == 'hlist_grow':
+            from .values import HList, Segment
+            parts0, elem = frame.locals['_grow_' + name]
+            cur, ok = frame.lookup(name)
+            fam = [r.cls for r in it.types.members_of(elem)]
+            good = isinstance(cur, HList) and len(cur.parts) >= len(parts0) and \
+                all(a is b for a, b in zip(cur.parts, parts0)) and \
+                all(isinstance(x, Obj) and x.cls in fam for x in cur.parts[len(parts0):])
+            p.oblige('%s#frame:%s:append-only' % (qn, name), z3.BoolVal(bool(good)), kind='frame',
+                     meta={'list': name, 'elements': elem}, assume_after=False)
     if measure0 is not None:
         if spec.decreases is not None:
             m1 = int_term(eval_in(it, frame, spec.decreases))
@@ -222,7 +306,9 @@ def run_loop_with_spec(it, node, frame, spec, kind, iterable=None):
             m1 = z3.Length(frame.locals['_todo'].term)
         else:
             m1 = int_term(rng[1]) - int_term(frame.locals['_pos'])
-        p.oblige('%s#decreases' % qn, z3.And(m1 >= 0, m1 < measure0), kind='variant')
+        # well-founded: the measure is non-negative whenever the body is entered and strictly
+        # smaller after it (a range loop may step past its upper bound on the last iteration)
+        p.oblige('%s#decreases' % qn, z3.And(measure0 >= 0, m1 < measure0), kind='variant')
     raise PathEnd('loop iteration verified (%s)' % qn)
 
 
